@@ -5,6 +5,13 @@ V = os.path.dirname(os.path.dirname(os.path.abspath(__file__)))
 ALL = ["C%02d" % i for i in range(1, 21)]
 
 CLAIMED = {
+ "C09": dict(
+   level="exploration",
+   text="Three generators: (1) host events with generated fields/params/content plus raised, #_internal and error events, every handler marks all _event fields: value read == event as dequeued == event as sent; (2) 17 kinds of attempts to modify _sessionid/_name/_ioprocessors/_event (assign, script '=' / '?=', foreach item/index), each in its own macrostep: error.execution dequeued, rest of block skipped, values unchanged afterwards; (3) statecharts with per-state data under early and late binding whose marks read variables and In() in onentry/onexit/transition bodies at partially updated configurations, against the reference interpreter. rfsm-expression and strict ECMAScript.",
+   design="6/C09",
+   note="Blank-insensitive comparison of absent fields; In() in the null data model is exercised as transition guards by C02; origintype spelling and the type of done.state events are not asserted.",
+   technique="property-based testing: round-trip of event fields, fault (write) injection on system variables, differential testing of binding/In() vs. reference interpreter"),
+
  "C08": dict(
    level="exploration",
    text="Content profile (nested if/elseif/else, foreach with item/index, assign, raise, log, script, send to #_internal in onentry/onexit/transition/initial/history bodies; rfsm-expression and strict ECMAScript) with an observation mark between all elements and at most one injected failing evaluation per block (12 kinds); the observed trace with error events projected out must equal the reference content interpreter's (either continuation of an erroring if-condition accepted) and error.execution must be dequeued exactly in the macrosteps in which the reference raised it.",
